@@ -331,6 +331,13 @@ pub fn run(tier: &str) -> Result<Report, String> {
         }
     }
     rep.set("single_formula_shared_vs_unshared_cases", json!(n_single));
-    rep.rule = "(also: every ordered pair of different unary operators / binary operators / quantifiers applied to the SAME operands as one batch [A, B, A & ~B] against single evaluation - cache keys are printed text; three long batches of 48 / 96 node-bounded formulae (tied heights, three orders) through model_check_multiple_formulae_dirty / _extended_formulae_dirty / _trees_dirty, and of extended formulae (wild-cards, restricted domains mixed with plain ones) through model_check_multiple_extended_formulae(_dirty), position by position against single evaluation; the same exploration and every ordered list of up to 5 (thorough 6) formulae over a three-formula alphabet - repetition patterns such as [A, A, B, B]) stateright BFS over the real EvalContext: initial states = every multiset of size <= max_batch_len over the collision alphabet (marked as a batch exactly as the entry points do), transitions = real eval_node on any not-yet-evaluated position, states merged by (batch, set of evaluated positions, sha256 digest of the context). In every reached state the new result must equal (BDD equality) the result of the formula evaluated alone and with sharing disabled, and the explicit-state oracle; no panic. Every ordered list of length <= max_batch_len additionally goes through model_check_multiple_extended_formulae_dirty (twice, and with an observer), model_check_multiple_extended_formulae and, for plain lists, model_check_multiple_formulae_dirty. Plus alone-vs-unshared-vs-oracle for every template formula and small extended formula. distinct_nontrivial = number of distinct context digests reached".into();
+    // caches that outlive a call: two-step histories over look-alike graphs, plain and extended probes
+    {
+        let units: Vec<_> = nets.iter().filter(|b| b.name == "con2").cloned().collect();
+        let fam = crate::history::family(tier, 3, &units);
+        crate::history::run(&mut rep, &fam, crate::history::WARM_PLAIN, crate::history::PROBE_PLAIN, sem::Checks { semantic: true, unit: true, entries: sem::Entries::Plain4 }, 0)?;
+        crate::history::run(&mut rep, &fam, crate::history::WARM_EXT, crate::history::PROBE_EXT, sem::Checks { semantic: true, unit: true, entries: sem::Entries::Ext2 }, 0)?;
+    }
+    rep.rule = "plus two-step histories: ordered pairs of look-alike graphs (networks over a, b with identical symbolic encoding but other update functions, with and without a shared function symbol; the same network with the unit set restricted to every second / the last colour) - warm-up formulae on the first graph, then probe formulae on the second on one fresh OS thread, every probe result against the explicit-state oracle and the unit set; (also: every ordered pair of different unary operators / binary operators / quantifiers applied to the SAME operands as one batch [A, B, A & ~B] against single evaluation - cache keys are printed text; three long batches of 48 / 96 node-bounded formulae (tied heights, three orders) through model_check_multiple_formulae_dirty / _extended_formulae_dirty / _trees_dirty, and of extended formulae (wild-cards, restricted domains mixed with plain ones) through model_check_multiple_extended_formulae(_dirty), position by position against single evaluation; the same exploration and every ordered list of up to 5 (thorough 6) formulae over a three-formula alphabet - repetition patterns such as [A, A, B, B]) stateright BFS over the real EvalContext: initial states = every multiset of size <= max_batch_len over the collision alphabet (marked as a batch exactly as the entry points do), transitions = real eval_node on any not-yet-evaluated position, states merged by (batch, set of evaluated positions, sha256 digest of the context). In every reached state the new result must equal (BDD equality) the result of the formula evaluated alone and with sharing disabled, and the explicit-state oracle; no panic. Every ordered list of length <= max_batch_len additionally goes through model_check_multiple_extended_formulae_dirty (twice, and with an observer), model_check_multiple_extended_formulae and, for plain lists, model_check_multiple_formulae_dirty. Plus alone-vs-unshared-vs-oracle for every template formula and small extended formula. distinct_nontrivial = number of distinct context digests reached".into();
     Ok(rep)
 }
